@@ -2968,13 +2968,19 @@ class _InitializeParams:
     @since 3.16.0"""
     # Since: 3.16.0
 
-    root_path: Optional[Union[str, None]] = attrs.field(default=None)
+    root_path: Optional[Union[str, None]] = attrs.field(
+        validator=attrs.validators.optional(attrs.validators.instance_of(str)),
+        default=None,
+    )
     """The rootPath of the workspace. Is null
     if no folder is open.
     
     @deprecated in favour of rootUri."""
 
-    root_uri: Optional[Union[str, None]] = attrs.field(default=None)
+    root_uri: Optional[Union[str, None]] = attrs.field(
+        validator=attrs.validators.optional(attrs.validators.instance_of(str)),
+        default=None,
+    )
     """The rootUri of the workspace. Is null if no
     folder is open. If both `rootPath` and `rootUri` are set
     `rootUri` wins.
@@ -3041,13 +3047,19 @@ class InitializeParams:
     @since 3.16.0"""
     # Since: 3.16.0
 
-    root_path: Optional[Union[str, None]] = attrs.field(default=None)
+    root_path: Optional[Union[str, None]] = attrs.field(
+        validator=attrs.validators.optional(attrs.validators.instance_of(str)),
+        default=None,
+    )
     """The rootPath of the workspace. Is null
     if no folder is open.
     
     @deprecated in favour of rootUri."""
 
-    root_uri: Optional[Union[str, None]] = attrs.field(default=None)
+    root_uri: Optional[Union[str, None]] = attrs.field(
+        validator=attrs.validators.optional(attrs.validators.instance_of(str)),
+        default=None,
+    )
     """The rootUri of the workspace. Is null if no
     folder is open. If both `rootPath` and `rootUri` are set
     `rootUri` wins.
